@@ -114,6 +114,14 @@ def run_k6(tier, seed):
                     continue
                 cases.append(gen_case(r, cid, src, ch, n=n, term=term, nt=nt, cs=cs))
                 cid += 1
+    # chunks of a thousand and more elements through the collecting terminals (bulk paths)
+    for (src, ch) in gen_harness.tok_shapes():
+        if ch not in ("F", "MF", "OF", "M", "XF"):
+            continue
+        for term in ["cx", "cv", "cs", "ci:v", "cnt"]:
+            for cs in ([("C", 1024)] if tier == "quick" else [("C", 1024), ("Cm", 512), ("C", 2048)]):
+                cases.append(gen_case(r, cid, src, ch, n=2300, term=term, nt=2, cs=cs))
+                cid += 1
     res = {"total": 0, "c13": [], "c14": [], "mismatch": [], "dist": {}, "samples": [], "errors": [],
            "nontrivial": 0, "panic_cases": 0, "leaked_on_panic": 0}
     # --- no panic: model value + calls (used to choose where to inject panics)
